@@ -460,3 +460,66 @@ Proof.
   - inversion Hs. subst st. eexists. split; [reflexivity|].
     apply Hst. unfold chk_written. cbn [app]. rewrite Hts6. unfold KW. cbn [loop]. now rewrite Hc.
 Qed.
+
+Lemma prev_ok_nil : prev_ok [].
+Proof. split; [intros L []|intros L C []]. Qed.
+
+(* THE WHOLE FILE: for a writable value, the document the writer model writes (when all its atoms are
+   ASCII) is read by the reader model as [norm_file n] *)
+Theorem file_roundtrip ts prog n d :
+  writable n = true -> params_w ts prog = true -> emit_file ts prog [] n = EmOk d ->
+  atoms_ascii d = true -> elab_file d = Ok (norm_file n).
+Proof.
+  intros Hw Hpar Hd Hasc. unfold writable in Hw.
+  apply andb_true_iff in Hw as [Hw Htop]. apply andb_true_iff in Hw as [Hw Hun].
+  apply andb_true_iff in Hw as [Hw Hui]. apply andb_true_iff in Hw as [Hel Hlw].
+  unfold elem_w in Hel. apply andb_true_iff in Hel as [Hi Ht].
+  destruct n as [fname fident libs top]. cbn [nf_name nf_ident nf_libs nf_top] in *.
+  destruct top as [t|]; [|discriminate].
+  unfold top_w in Htop. apply andb_true_iff in Htop as [Htel Htf].
+  unfold elem_w in Htel. apply andb_true_iff in Htel as [Hti Htt].
+  destruct (find_lib (tp_lib t) libs) as [L|] eqn:EfL; [|discriminate].
+  apply andb_true_iff in Htf as [HLid Htf]. apply str_eqb_spec in HLid.
+  destruct (find_cell (tp_cell t) (li_cells L)) as [C|] eqn:EfC; [|discriminate].
+  apply str_eqb_spec in Htf.
+  pose proof (libs_w_ok libs [] prev_ok_nil Hlw) as [Pk1 Pk2]. cbn [app] in Pk1, Pk2.
+  assert (HinL : In L libs) by (unfold find_lib in EfL; apply find_some in EfL; tauto).
+  assert (HinC : In C (li_cells L)) by (unfold find_cell in EfC; apply find_some in EfC; tauto).
+  assert (HwL : ident_w (tp_lib t) = true) by (rewrite <- HLid; auto).
+  assert (HwC : ident_w (tp_cell t) = true) by (rewrite <- Htf; apply (Pk2 L C HinL HinC)).
+  unfold emit_file in Hd. cbn [nf_name nf_ident nf_libs nf_top] in Hd. rewrite Hui in Hd. cbn [negb] in Hd.
+  destruct (name_sexp fident fname) as [nx| |] eqn:En; try discriminate.
+  destruct (status_sexp ts prog) as [st| |] eqn:Est; try discriminate.
+  destruct (emap (lib_sexp [] libs) libs) as [lxs| |] eqn:Els; try discriminate.
+  destruct (name_sexp (tp_ident t) (tp_name t)) as [tnx| |] eqn:Etn; try discriminate.
+  unfold atom_of in Hd. destruct (ident_w_parts _ HwC) as (_ & _ & HatC). destruct (ident_w_parts _ HwL) as (_ & _ & HatL).
+  rewrite HatC, HatL in Hd. inversion Hd. subst d. clear Hd.
+  destruct (status_read ts prog st Hpar Est) as (sargs & -> & Hst).
+  destruct (elemname_roundtrip _ _ _ Hi Ht En) as (n0 & Hn0 & Hn01 & Hn02).
+  destruct (elemname_roundtrip _ _ _ Hti Htt Etn) as (n1 & Hn1 & Hn11 & Hn12).
+  unfold elab_file. rewrite Hasc. cbn [negb app].
+  replace (is_kw "edif" (KW "edif")) with true by (vm_compute; reflexivity). cbn [negb].
+  rewrite Hn0.
+  replace (chk_int_form "edifversion" 3 (SList [KW "edifversion"; KW "2"; KW "0"; KW "0"])) with (@Ok unit tt)
+    by (vm_compute; reflexivity).
+  replace (chk_int_form "ediflevel" 1 (SList [KW "edifLevel"; KW "0"])) with (@Ok unit tt) by (vm_compute; reflexivity).
+  replace (chk_keywordmap (SList [KW "keywordmap"; SList [KW "keywordlevel"; KW "0"]])) with (@Ok unit tt)
+    by (vm_compute; reflexivity).
+  unfold body. unfold KW at 1. cbn [loop]. unfold body_step at 1.
+  replace (kweq (lower (K "status")) "status") with true by (vm_compute; reflexivity).
+  cbn [bs_status bs_libs bs_top]. rewrite Hst. rewrite loop_app.
+  change (@nil nvlib) with (map norm_lib []) at 1.
+  rewrite (libs_loop libs libs [] lxs true None eq_refl Hui Hun prev_ok_nil Hlw Els). cbn [app].
+  unfold KW at 1. cbn [loop]. unfold body_step at 1.
+  replace (kweq (lower (K "design")) "status") with false by (vm_compute; reflexivity).
+  replace (kweq (lower (K "design")) "library") with false by (vm_compute; reflexivity).
+  replace (kweq (lower (K "design")) "external") with false by (vm_compute; reflexivity).
+  replace (kweq (lower (K "design")) "design") with true by (vm_compute; reflexivity).
+  cbn [orb bs_top bs_libs bs_status]. unfold parse_design. rewrite Hn1.
+  replace (is_kw "cellref" (KW "cellref")) with true by (vm_compute; reflexivity).
+  replace (is_kw "libraryref" (KW "libraryref")) with true by (vm_compute; reflexivity).
+  cbn [negb]. rewrite (nameref_read _ HwC), (nameref_read _ HwL).
+  rewrite find_lib_norm, EfL. cbn [option_map norm_lib li_cells li_ident]. rewrite find_cell_norm, EfC.
+  cbn [option_map norm_cell ce_ident bs_libs bs_top]. unfold norm_file. cbn [nf_name nf_ident nf_libs nf_top].
+  rewrite Hn01, Hn02, Hn11, Hn12, HLid, Htf. destruct t; reflexivity.
+Qed.
